@@ -134,6 +134,7 @@ def run(prog, rep, tier):
     r1_9(ctx, rep)
     r1_10(ctx, rep)
     r1_11(ctx, rep)
+    r1_12(ctx, rep)
     if tier == "thorough":
         from ..models import grammar_bounded
 
@@ -147,6 +148,7 @@ def run(prog, rep, tier):
     rep.floor("R1.8", 5)
     rep.floor("R1.10", 2)
     rep.floor("R1.11", 10)
+    rep.floor("R1.12", 2)
 
 
 # ------------------------------------------------------------------------------------------
@@ -561,6 +563,8 @@ def r1_4(ctx, rep):
         "entry point is parse (which carries the end-of-input check), not a sub-production",
         "model_description does not call Parser(...).parse() on Scanner(...).scan()")
     ctx.md_scan_call = inner
+    from . import shared as _sh0
+    _sh0.formula_text_untouched(prog, rep, "R1.4")
 
 
 def _returns(fn):
@@ -1355,6 +1359,10 @@ def _passthrough_visit(fn, param):
         v = unparse(r.value)
         hops = 0
         while v in assigns and multi.get(v, 0) == 1 and hops < 5:
+            # the temporary is only handed on: any other use (an attribute, a call on it) could modify the result in place
+            loads = [n for n in walk_local(fn.node) if isinstance(n, ast.Name) and n.id == v and isinstance(n.ctx, ast.Load)]
+            if len(loads) != 1:
+                return False, f"the result kept in `{v}` is used {len(loads)} times before it is returned (it may be modified in place)"
             v = assigns[v]
             hops += 1
         if v != want:
@@ -1412,6 +1420,17 @@ def r1_11(ctx, rep):
         rep.check(ok, "R1.11", cls.where, cls.qual, f"node class {cname}: accept -> {target}, defined by Resolver"
                   + ("" if need else " (Assign is only legal inside calls)"), "",
                   f"{cname}.accept dispatches to {target}, which Resolver does not define")
+
+
+def r1_12(ctx, rep):
+    """no ignored token at the level of the operators: the exponent of `**` is either used (a positive integer) or the formula is
+    refused.  The term-set interpretation of the `**` overloads (C02's R2.6) is adopted for exactly those cases."""
+    from . import C02
+    from ..core import reuse_rule
+
+    n = reuse_rule(rep, C02.r2_6, "R1.12", ctx.prog, keep=lambda it: " ** " in it.get("construct", ""))
+    if not n:
+        raise AnalysisError("R1.12: no `**` overload was interpreted")
 
 
 from ..core import guard_rules  # noqa: E402
